@@ -367,6 +367,7 @@ func init() {
 		x.ratioSweep(fns, false)
 		x.nearMissBlocks(fns)
 		x.bytePairBlocks(fns)
+		x.fffdBait(fns)
 		x.affixFor(fns, valid, 60000*x.scale)
 		x.pairsFor(fns, valid, 20000*x.scale)
 		x.thresholdSweep(fns, streamValid, 40, 40)
@@ -383,6 +384,7 @@ func init() {
 	props["C11"] = func(x *Ctx) {
 		x.anyFor(both, 150000*x.scale)
 		x.anyGrid()
+		x.anyCaseBit()
 		x.orbitPairsSS([]string{"IndexAny", "LastIndexAny"})
 	}
 	props["C12"] = func(x *Ctx) {
@@ -715,6 +717,62 @@ func (x *Ctx) anyGrid() {
 			}
 		}
 	}
+}
+
+// anyCaseBit: chars made of an ASCII byte c that is NOT a letter (alone, after a K/S, before one), the
+// haystack holding c ^ 0x20 (what c's "other case" would be if it were a letter) before, instead of, or
+// after c, in ASCII-only and mixed haystacks on both sides of the len(s) > 8 threshold
+func (x *Ctx) anyCaseBit() {
+	n := 0
+	for c := 0; c < 128; c++ {
+		if isAlphaB(byte(c)) || c^0x20 >= 128 {
+			continue
+		}
+		o := byte(c ^ 0x20)
+		for _, ch := range []string{string(rune(c)), "k" + string(rune(c)), "S" + string(rune(c)), string(rune(c)) + "k", "q" + string(rune(c))} {
+			for _, pad := range []string{"", "yyyy", "yyyyyyyyyy", "yyyy世yyyyyy"} {
+				for _, s := range [][]byte{
+					[]byte(pad + string(o) + pad),
+					[]byte(pad + string(o) + pad + string(rune(c))),
+					[]byte(string(rune(c)) + pad + string(o) + pad),
+				} {
+					x.run("IndexAny", s, []byte(ch), 0)
+					x.run("LastIndexAny", s, []byte(ch), 0)
+					x.run("ContainsAny", s, []byte(ch), 0)
+					n += 3
+				}
+			}
+		}
+	}
+	x.note("any/case-bit family: %d cases", n)
+}
+
+// fffdBait: a literal U+FFFD in one argument opposite a multi-byte code point in the other, behind (or in
+// front of) code points whose fold partners have another width — if a function slices by the OTHER string's
+// byte length it cuts a code point in two, and the stray bytes decode as U+FFFD, which the bait then matches
+func (x *Ctx) fffdBait(fns []string) {
+	wide := [][2]string{{"K", "k"}, {"ſ", "s"}, {"ẞ", "ß"}, {"ⱥ", "Ⱥ"}, {"Ω", "ω"}, {"ſſ", "ss"}, {"K", "K"}, {"KK", "kk"}}
+	mids := []string{"é", "世", "😀", "न", "\u07ff", "\u0800", "x"}
+	n := 0
+	for _, w := range wide {
+		for _, m := range mids {
+			for _, tail := range []string{"", "x", "tail"} {
+				pairs := [][2]string{
+					{w[0] + m + tail, w[1] + "\uFFFD" + tail}, {w[1] + m + tail, w[0] + "\uFFFD" + tail},
+					{w[0] + "\uFFFD" + tail, w[1] + m + tail},
+					{tail + m + w[0], tail + "\uFFFD" + w[1]}, {tail + m + w[1], tail + "\uFFFD" + w[0]},
+					{"pre" + w[0] + m + tail, w[1] + "\uFFFD" + tail}, {w[0] + m + tail + "post", w[1] + "\uFFFD" + tail},
+				}
+				for _, pr := range pairs {
+					for _, fn := range fns {
+						x.eval(&Case{Fn: fn, S: []byte(pr[0]), T: []byte(pr[1])}, n%17 == 0)
+						n++
+					}
+				}
+			}
+		}
+	}
+	x.note("U+FFFD bait: %d cases", n)
 }
 
 var _ = bytcase.Index
